@@ -8,7 +8,7 @@ from ..spec import Clock, build, build_timegrid
 from ..canon import Snap
 
 PROPERTY = 'C06'
-CASES = {'quick': 132, 'thorough': 1200}
+CASES = {'quick': 396, 'thorough': 3168}
 BUDGET_S = {'quick': 400, 'thorough': 3000}
 RULE = ('three monitors on Plant / CHPAsset problems produced by the real set-up. M6a (pattern admission, exhaustive workload): for a parameter '
         'combination (min runtime, min downtime, initial state running-for-R / off-for-F, freq vs. main-unit conversions, with/without start variables, '
@@ -25,8 +25,8 @@ ASSUMPTIONS = ['durations are multiples of the step (ceil conversion is exercise
                'limits <= 1 step mean "none"; initial state "off, duration unknown" (both 0) makes no claim on the first off-run',
                'M6c excludes ramp profiles (covered by M6b); MIP value tolerance 2e-4 relative',
                'with free starts a spurious start flag is cost-neutral: equality start = on_t - on_(t-1) is only demanded when a start is strictly costly']
-MIN_NONVACUOUS = {'quick': {'uc.pattern_admission': 2000, 'uc.off_means_zero': 25, 'uc.capacity_when_on': 25, 'uc.ramp': 12, 'uc.start_flag': 20,
-                            'uc.fuel_balance': 12, 'uc.heat_share': 8, 'uc.pattern_respects_runtime_downtime': 25, 'uc.value_equals_reference': 20},
+MIN_NONVACUOUS = {'quick': {'uc.pattern_admission': 5000, 'uc.off_means_zero': 62, 'uc.capacity_when_on': 62, 'uc.ramp': 30, 'uc.start_flag': 50,
+                            'uc.fuel_balance': 30, 'uc.heat_share': 20, 'uc.pattern_respects_runtime_downtime': 62, 'uc.value_equals_reference': 50},
                   'thorough': {'uc.pattern_admission': 60000, 'uc.off_means_zero': 250, 'uc.ramp': 120, 'uc.value_equals_reference': 200}}
 
 
